@@ -18,6 +18,17 @@ CHECKS = {
         design_ref="DESIGN.md section 6, C25",
         note=TB + "std's partition_point is modelled by its documented specification (precondition proved). Axioms: none.",
         technique="Coq proof (induction over the text) + exhaustive model/implementation correspondence"),
+    "C22": dict(
+        category="proof",
+        text=("Coq theorem: for EVERY input text the model lexer (reading of tokenizer.txt under Logos maximal munch + the "
+              "hand-written sub-lexers lex_char/lex_string/lex_comment) terminates without crash and its tokens satisfy the "
+              "specification lex_ok (start at 0, contiguous, ordered, end at the byte length, every boundary a char boundary, "
+              "every kind agrees with its text; losslessness corollary). The Logos automaton is generated code, so the model is "
+              "tied to the real lexer by exhaustive differential runs over the 24-symbol alphabet (len<=3 quick, <=4 thorough), "
+              "every Unicode-Nd range endpoint, random/corpus streams, and the extracted lex_ok is run on the real lexer's tokens."),
+        design_ref="DESIGN.md section 6, C22",
+        note=TB + "The Logos-generated automaton and regex-syntax's Unicode tables are not verified; tokenizer.txt literals/regexes are compared with the model's tables on every run. Axioms: none.",
+        technique="Coq proof (induction on fuel/text, Cover invariant) + exhaustive model/implementation correspondence + verified checker on real tokens"),
 }
 
 NOT_YET = {}
